@@ -24,8 +24,8 @@ CHECKS = {
    "Trusted: scripts/tls-ciphersuites.txt as the reference registry, the committed snapshot, the token tables in vcommon/src/reference/ciphers.rs (names with unknown tokens are counted, not judged).",
    "DESIGN.md section 3 C12"),
  "C07": (True, "model_checking",
-   "explicit-state BFS over operation sequences on the real TlsRecordsParser (canonical-state dedup, witness-history replay) against an accumulate-then-parse reference",
-   "All operation sequences over a 19-record alphabet x {parse_record, parse_record_nocopy} + reset up to the stated depth, all k-way splits (incl. empty fragments and cuts inside the header) of every catalogue payload interleaved with foreign-type records / nocopy / reset to fixpoint, the 10 MiB cap histories, fixed split histories under every record-layer version (all 65536 values on each single record and on all records) and hand-built first fragments of about 10 MiB are executed on the real object; every transition is compared with the reference model (value with slice provenance, in-progress flag, buffer, state preservation on refusals).",
+   "explicit-state BFS over operation sequences on the real TlsRecordsParser (canonical-state dedup incl. a digest of the object's Debug text, witness-history replay) against an accumulate-then-parse reference",
+   "All operation sequences over a 19-record alphabet x {parse_record, parse_record_nocopy} + reset up to the stated depth, all k-way splits (incl. empty fragments and cuts inside the header) of every catalogue payload interleaved with foreign-type records / nocopy / reset to fixpoint, the 10 MiB cap histories, fixed split histories under every record-layer version (all 65536 values on each single record and on all records) and hand-built first fragments of about 10 MiB and single operations repeated up to 70000 times inside a defragmentation are executed on the real object; every transition is compared with the reference model (value with slice provenance, in-progress flag, buffer, state preservation on refusals).",
    "Trusted: parse_tls_record_with_header as the inner one-shot oracle (its correctness is C03/C04); payloads <= 45 bytes; S0 depth bound as reported in the evidence (5 quick / 8 thorough). Thorough tier: state counts cross-checked with an independent stateright BFS over the same transition function.",
    "DESIGN.md section 3 C07"),
  "C02": (True, "exploration",
@@ -90,12 +90,12 @@ CHECKS = {
    "DESIGN.md section 3 C01"),
  "C06": (True, "exploration",
    "bounded-exhaustive enumeration with a reference-free relational oracle: f(b) vs f(b[..consumed]) vs f(b||x) for up to 14 suffixes (incl. 70000 bytes), slice positions inside the consumed prefix; defragmenter provenance via the C07 exploration",
-   "For each of 43 self-delimiting parsers every catalogue encoding with every deviation (lying lengths incl. +256 / +65536 / top bit), the same encodings under foreign outer headers (DER, length prefixes, record / handshake / extension headers) and every bounded string is parsed alone, cut to its consumed length and extended by the suffixes (including a copy of itself and valid structures); the value, the consumption and the outcome class must not change and every slice must lie inside the consumed prefix of the caller's buffer; defragmented results must borrow from the internal buffer, others from the record.",
+   "For each of 43 self-delimiting parsers every catalogue encoding with every deviation (lying lengths incl. +256 / +65536 / top bit), the same encodings under foreign outer headers (DER, length prefixes, record / handshake / extension headers) and every bounded string is parsed alone, cut to its consumed length and extended by the suffixes (including a copy of itself and valid structures); the value, the consumption and the outcome class must not change and every slice must lie inside the consumed prefix of the caller's buffer; for structures that carry their total length up front, the outcome on exactly the declared bytes equals the outcome with more bytes and no more than the declared bytes are consumed; accepted encodings are also parsed inside a buffer of 2^32 + k bytes; defragmented results must borrow from the internal buffer, others from the record.",
    "Reference-free (no walker trusted); suffix set fixed; bounded input spaces as reported.",
    "DESIGN.md section 3 C06"),
  "C18": (True, "exploration",
-   "complete enumeration of the 4-element feature-set space (builds from the working tree), differential digests of a probe built per configuration, -F unsafe_code rebuilds + token scan of the sources and of the macro-expanded crate, compile-time Send/Sync probe",
-   "All four feature sets are built on every run; the three buildable ones must build (also with -F unsafe_code) and their macro-expanded text may contain `unsafe` only in the marker impls of core's built-in derives, the fourth must fail with the compile_error text; a probe crate prints per-entry-point digests over the catalogue corpus for each configuration and they must be identical; a second probe asserts Send + Sync for 77 public types.",
+   "complete enumeration of the 4-element feature-set space (builds from the working tree), differential digests of a probe built per configuration (also under an LD_PRELOAD shim owning clock, OS randomness and environment variables), -F unsafe_code rebuilds + token scan of the sources and of the macro-expanded crate, compile-time Send/Sync probe",
+   "All four feature sets are built on every run; the three buildable ones must build (also with -F unsafe_code) and their macro-expanded text may contain `unsafe` only in the marker impls of core's built-in derives, the fourth must fail with the compile_error text; a probe crate prints per-entry-point digests over the catalogue corpus for each configuration and they must be identical, also in three further runs per configuration in which every clock reading jumps ahead, OS randomness is fixed and every environment variable read by name has a value; a second probe asserts Send + Sync for 77 public types.",
    "The behavioural comparison covers the probe's corpus (catalogue with single deviations, registries over all ids), not every input.",
    "DESIGN.md section 3 C18"),
 }
